@@ -1171,18 +1171,21 @@ func (c *Compiler) compileFunc(node *ast.Func) error {
 	// code object instead of the parent.
 	c.current = code
 
-	// Make it quick to look up the index of a parameter
-	paramsIdx := map[string]int{}
 	params := node.ParameterNames()
-	for i, name := range params {
-		paramsIdx[name] = i
-	}
 
 	// Build an array of default values for parameters, supporting only
 	// the basic types of int, string, bool, float, and nil.
 	defaults := make([]any, len(params))
 	defaultsSet := map[int]bool{}
-	for name, expr := range node.Defaults() {
+	// Walk the parameters in source order rather than ranging over the map of
+	// defaults, so that the error reported for an unsupported default does
+	// not depend on map iteration order.
+	defaultExprs := node.Defaults()
+	for index, name := range params {
+		expr, ok := defaultExprs[name]
+		if !ok {
+			continue
+		}
 		var value any
 		switch expr := expr.(type) {
 		case *ast.Int:
@@ -1199,7 +1202,6 @@ func (c *Compiler) compileFunc(node *ast.Func) error {
 			line := node.Token().StartPosition.Line + 1
 			return fmt.Errorf("compile error: unsupported default value (got %s, line %d)", expr, line)
 		}
-		index := paramsIdx[name]
 		defaults[index] = value
 		defaultsSet[index] = true
 	}
